@@ -25,6 +25,7 @@ import (
 	"path/filepath"
 	"strconv"
 	"sync"
+	"sync/atomic"
 	"time"
 
 	"github.com/containerd/nri/pkg/api"
@@ -287,8 +288,8 @@ type stub struct {
 	cfgErrC    chan error
 	syncReq    *api.SynchronizeRequest
 
-	registrationTimeout time.Duration
-	requestTimeout      time.Duration
+	registrationTimeout atomic.Int64 // time.Duration; written by Configure(), read from other goroutines
+	requestTimeout      atomic.Int64 // time.Duration; written by Configure(), read from other goroutines
 }
 
 // Handlers for NRI plugin event and request.
@@ -319,10 +320,9 @@ func New(p interface{}, opts ...Option) (Stub, error) {
 		idx:        os.Getenv(api.PluginIdxEnvVar),
 		socketPath: api.DefaultSocketPath,
 		dialer:     func(p string) (stdnet.Conn, error) { return stdnet.Dial("unix", p) },
-
-		registrationTimeout: DefaultRegistrationTimeout,
-		requestTimeout:      DefaultRequestTimeout,
 	}
+	stub.registrationTimeout.Store(int64(DefaultRegistrationTimeout))
+	stub.requestTimeout.Store(int64(DefaultRequestTimeout))
 
 	for _, o := range opts {
 		if err := o(stub); err != nil {
@@ -403,7 +403,7 @@ func (stub *stub) Start(ctx context.Context) (retErr error) {
 	}
 
 	doneC := stub.doneC
-	cfgTimeout := stub.registrationTimeout
+	cfgTimeout := stub.RegistrationTimeout()
 	clientOpts := []ttrpc.ClientOpts{
 		ttrpc.WithOnClose(func() {
 			stub.connClosed(doneC)
@@ -530,11 +530,11 @@ func (stub *stub) Name() string {
 }
 
 func (stub *stub) RegistrationTimeout() time.Duration {
-	return stub.registrationTimeout
+	return time.Duration(stub.registrationTimeout.Load())
 }
 
 func (stub *stub) RequestTimeout() time.Duration {
-	return stub.requestTimeout
+	return time.Duration(stub.requestTimeout.Load())
 }
 
 // Connect the plugin to NRI.
@@ -575,7 +575,7 @@ func (stub *stub) connect() error {
 func (stub *stub) register(ctx context.Context) error {
 	log.Infof(ctx, "Registering plugin %s...", stub.Name())
 
-	ctx, cancel := context.WithTimeout(ctx, stub.registrationTimeout)
+	ctx, cancel := context.WithTimeout(ctx, stub.RegistrationTimeout())
 	defer cancel()
 
 	req := &api.RegisterPluginRequest{
@@ -637,8 +637,8 @@ func (stub *stub) Configure(ctx context.Context, req *api.ConfigureRequest) (rpl
 	log.Infof(ctx, "Configuring plugin %s for runtime %s/%s...", stub.Name(),
 		req.RuntimeName, req.RuntimeVersion)
 
-	stub.registrationTimeout = time.Duration(req.RegistrationTimeout * int64(time.Millisecond))
-	stub.requestTimeout = time.Duration(req.RequestTimeout * int64(time.Millisecond))
+	stub.registrationTimeout.Store(req.RegistrationTimeout * int64(time.Millisecond))
+	stub.requestTimeout.Store(req.RequestTimeout * int64(time.Millisecond))
 
 	defer func() {
 		stub.cfgErrC <- retErr
